@@ -932,6 +932,18 @@ void vg_free(uint8_t *p, size_t n)
 
 /* ====================================================== worker runtime == */
 vargs VA;
+static int saved_stdout = -1;
+void vw_mute_stdout(void)
+{
+    fflush(stdout);
+    saved_stdout = dup(1);
+    int dn = open("/dev/null", O_WRONLY);
+    if (dn >= 0) { dup2(dn, 1); close(dn); }
+}
+void vw_unmute_stdout(void)
+{
+    if (saved_stdout >= 0) { fflush(stdout); dup2(saved_stdout, 1); close(saved_stdout); saved_stdout = -1; }
+}
 static char *inflight; static size_t inflight_sz = 1 << 16;
 static uint64_t cur_case, cases_done, nontrivial;
 static uint64_t *hset; static size_t hcap, hcnt;
@@ -1041,8 +1053,8 @@ void vw_violation(const char *sig, const char *fmt, ...)
     va_end(ap);
     if (VA.verbose) {
         va_start(ap, fmt);
-        printf("MISMATCH sig=%s case=%llu\n", sig, (unsigned long long)cur_case);
-        vprintf(fmt, ap); printf("\n");
+        fprintf(stderr, "MISMATCH sig=%s case=%llu\n", sig, (unsigned long long)cur_case);
+        vfprintf(stderr, fmt, ap); fprintf(stderr, "\n");
         va_end(ap);
     }
 }
@@ -1050,6 +1062,7 @@ bool vw_stop(void) { return nviol >= (uint64_t)VA.maxviol; }
 int vw_finish(void)
 {
     char path[1024];
+    vw_unmute_stdout();
     snprintf(path, sizeof path, "%s/hashes-%llu.bin", VA.outdir, (unsigned long long)VA.wid);
     FILE *f = fopen(path, "ab");
     if (f) { for (size_t i = 0; i < hcap; i++) if (hset[i]) fwrite(&hset[i], 8, 1, f); fclose(f); }
